@@ -1201,7 +1201,7 @@ pub fn run(cfg: Config) -> i32 {
         Loss,
     }
     let mut jobs = Vec::new();
-    let (n_tp, n_tb, n_vrq, n_ep, n_eb, n_loss) = cfg.tier.pick((ll.len(), 120, 30, ll.len(), 40, 16), (4 * ll.len(), 600, 120, 4 * ll.len(), 300, 64));
+    let (n_tp, n_tb, n_vrq, n_ep, n_eb, n_loss) = cfg.tier.pick((ll.len(), 120, 30, ll.len(), 40, 16), (12 * ll.len(), 3000, 600, 8 * ll.len(), 1000, 64));
     jobs.extend((0..n_tp).map(Job::TPcPure));
     jobs.extend((0..n_tb).map(Job::TPcBin));
     for n in [1usize, 2] {
